@@ -449,6 +449,22 @@ pub fn file_order_projects() -> Vec<Project> {
     v
 }
 
+/// programs whose entry point is missing or has another shape: both pipelines give one verdict, and an
+/// accepted program is valid Go
+pub fn entry_point_projects() -> Vec<Project> {
+    let q = |name: &str, files: &[(&str, &str)]| Project { name: name.into(), files: files.iter().map(|(a, b)| (a.to_string(), b.to_string())).collect(), expected_stdout: None };
+    vec![
+        q("entry-point-missing", &[("main.gom", "package Main\n\nfn helper() -> int32 { 1 }\n")]),
+        q("entry-point-missing-package-of-two-files", &[("main.gom", "package Main\n\nfn helper() -> int32 { other() }\n"), ("other.gom", "package Main\n\nfn other() -> int32 { 2 }\n")]),
+        q("entry-point-only-in-library", &[("main.gom", "package Main\nimport Lib\n\nfn helper() -> unit { Lib::main() }\n"), ("Lib/lib.gom", "package Lib\n\nfn main() -> unit { string_println(\"lib\") }\n")]),
+        q("entry-point-in-sibling-file", &[("main.gom", "package Main\n\nfn helper() -> int32 { 1 }\n"), ("zzz.gom", "package Main\n\nfn main() { string_println(int32_to_string(helper())) }\n")]),
+        q("entry-point-with-parameter", &[("main.gom", "package Main\n\nfn main(k: int32) -> unit { string_println(int32_to_string(k)) }\n")]),
+        q("entry-point-returning-int", &[("main.gom", "package Main\n\nfn main() -> int32 { string_println(\"m\"); 3 }\n")]),
+        q("entry-point-generic", &[("main.gom", "package Main\n\nfn main[T]() -> unit { string_println(\"g\") }\n")]),
+        q("entry-point-is-a-struct", &[("main.gom", "package Main\n\nstruct main { k: int32 }\nfn helper() -> int32 { 1 }\n")]),
+    ]
+}
+
 /// what a package means must survive being written to and read back from its artifact files:
 /// float literals with up to 17 significant digits, and function bodies of growing length (one
 /// nesting level of the serialised IR per statement)
